@@ -9,30 +9,8 @@ import Y0.Lemmas.CtfTrAlg3
 namespace Y0.CtfTr
 open Ctf Relation Y0.MG
 
-/-! ### the variables of `D*` and the crash classes of Algorithm 3, as decidable predicates on the input -/
-
-/-- the variables of `D*` before the conversion to ctf-factor form: the union of the ancestral components that contain an
-outcome variable -/
-def dstarVars (g : MG Name) (o c : Event) : Except Err (List Var) := do
-  let comps ← ancestralComponents g (eventVars c) (unionVars (eventVars c) (eventVars o))
-  pure (deriveVars comps (eventVars o))
-
-/-- every outcome variable is found in the ancestral components under its own name (the complement is the class of the
-findings `crash:ctfTR-derived-event-rejected`, `crash:ctfTR-final-check`, `value:outcome-lookup-miss`) -/
-def OutcomesFound (g : MG Name) (o c : Event) : Bool :=
-  match dstarVars g o c with
-  | .ok D => o.all fun p => mem' p.1 D
-  | .error _ => false
-
-/-- `D*` names every graph vertex in one world only (no `Y_x` next to `Y_{x'}`) -/
-def DstarOneWorld (g : MG Name) (o c : Event) : Bool :=
-  match dstarVars g o c with
-  | .ok D => decide ((D.map (·.name)).Nodup)
-  | .error _ => false
-
-/-- no outcome shares its graph vertex with a condition (the class for which the validator documents
-`NotImplementedError`; finding `value:outcome-also-condition`) -/
-def OutcomeNotCondition (o c : Event) : Bool := o.all fun p => c.all fun q => p.1.name != q.1.name
+/-! ### the variables of `D*` (`dstarVars`; the crash classes `OutcomesFound`, `DstarOneWorld`, `OutcomeNotCondition` are
+defined next to the model in Y0/Model/CtfTr.lean) -/
 
 theorem line2C_eq (g : MG Name) (o c : Event) :
     line2C g o c = (dstarVars g o c).bind fun D =>
